@@ -65,7 +65,7 @@ def sequential(ctx, d, exe):
     hs = []
     if ctx.quick:
         bfs = [("reg4", consts(4, 1, [1], [(0, 0)], 5)),            # registry: holes, re-registration
-               ("slot2", consts(2, 1, [1, 2], [(0, 0), (1, 1)], 5)),  # slots: growth, constructor, test-and-set
+               ("slot2", consts(2, 1, [1, 2], [(1, 1)], 5)),        # slots: growth, constructor, test-and-set
                ("obj2", consts(2, 2, [1], [(0, 1)], 5))]            # two object arrays, destructor on unregister
     else:
         bfs = [("reg4", consts(4, 1, [1], [(0, 0)], 6)),
@@ -115,18 +115,119 @@ def sequential(ctx, d, exe):
     return hs, exs
 
 
+# ---- concurrent scenarios: "pre" runs on the main thread, then the threads run their programs ---------------------
+# (two-thread scenarios are explored exhaustively at yield-point granularity; three threads and more only with
+#  random schedules / free running: two threads spinning on the list lock wake each other up under vsched)
+EXPLORE = [
+    # array growth (set of a new identifier) against readers of an old slot
+    {"name": "grow1", "pre": "reg 1 0 0;obj 1;set 1 1 1;reg 2 0 0", "threads": ["set 1 2 2", "get 1 1"], "limit": 0},
+    {"name": "grow2", "pre": "reg 1 0 0;obj 1;set 1 1 1", "threads": ["reg 2 0 0;set 1 2 2", "tas 1 1 2 1;get 1 1"]},
+    # two registrations racing for the hole left by an unregistration
+    {"name": "hole", "pre": "reg 1 0 0;reg 2 0 0;reg 3 0 0;unr 2", "threads": ["reg 4 0 0;lk 5", "reg 5 0 0;lk 4"], "limit": 0},
+    # constructed default against test-and-set
+    {"name": "ctor", "pre": "reg 1 1 1;obj 1", "threads": ["get 1 1", "tas 1 1 2 0"], "limit": 0},
+    {"name": "ctor2", "pre": "reg 1 1 1;obj 1", "threads": ["get 1 1;tas 1 1 1 11", "get 1 1;tas 1 1 2 11"]},
+    # unregister (destructor clears the slots) against use of another info, and re-registration
+    {"name": "unreg", "pre": "reg 1 0 1;reg 2 0 0;obj 1;set 1 1 1;set 1 2 2", "threads": ["unr 1;reg 3 0 0", "tas 1 2 1 2;get 1 2"]},
+]
+RANDOM = [
+    {"name": "grow3", "pre": "reg 1 0 0;obj 1;set 1 1 1",
+     "threads": ["reg 2 0 0;set 1 2 2;get 1 2", "get 1 1;tas 1 1 2 1;get 1 1", "reg 3 1 1;get 1 3;tas 1 3 1 13"]},
+    {"name": "hole3", "pre": "reg 1 0 0;reg 2 0 0;reg 3 0 0;reg 4 0 0;unr 2;unr 3;obj 1",
+     "threads": ["reg 5 0 0;set 1 5 1;get 1 5", "reg 6 0 0;set 1 6 2;get 1 6", "lk 1;reg 7 0 1;lk 4;unr 7"]},
+    {"name": "objs3", "pre": "reg 1 1 0;reg 2 0 0",
+     "threads": ["obj 1;get 1 1;set 1 2 1", "obj 2;tas 2 2 2 0;get 2 1", "reg 3 0 0;lk 3;lk 2"]},
+]
+STRESS = {"name": "stress", "pre": "reg 1 0 0;reg 2 1 1;obj 1;obj 2;set 1 1 1",
+          "threads": ["reg 3 0 0;set 1 3 1;get 1 3;tas 1 1 2 1;get 2 2;unr 3;reg 7 0 0;set 2 7 2;get 2 7",
+                      "reg 4 1 1;get 1 4;get 2 4;tas 2 1 1 0;lk 3;get 1 1;set 2 4 2;get 2 4",
+                      "get 1 2;reg 5 0 1;set 2 5 2;tas 2 5 1 2;unr 5;lk 5;reg 8 0 0;get 1 8;get 2 1",
+                      "obj 3;get 3 2;reg 6 0 0;tas 3 6 2 0;get 3 6;lk 4;tas 1 1 1 2;get 3 1"]}
+
+
+def scenario_file(sc, path):
+    with open(path, "w") as f:
+        f.write("pre %s\n" % sc["pre"])
+        for t, ops in enumerate(sc["threads"]):
+            f.write("t %d %s\n" % (t, ops))
+
+
+def annotate(ex):
+    """copy every call's result into its inv event (field pr, see RegLinTrace.tla)"""
+    out = []
+    for i, ev in enumerate(ex):
+        if ev.get("e") == "inv":
+            ev = dict(ev)
+            ev["pr"] = 0
+            for w in ex[i + 1:]:
+                if w.get("e") == "res" and w.get("t") == ev.get("t"):
+                    ev["pr"] = w.get("r")
+                    break
+        out.append(ev)
+    return out
+
+
+def concurrent(ctx, exe):
+    executions = []
+    limit = 6000 if ctx.quick else 150000
+    nrand = 500 if ctx.quick else 20000
+    all_exh = True
+
+    def collect(sc, mode, arg, extra=()):
+        scf = os.path.join(ctx.scratch, sc["name"] + ".scn")
+        scenario_file(sc, scf)
+        tr = os.path.join(ctx.scratch, "%s.%s.trace" % (sc["name"], mode))
+        meta = os.path.join(ctx.scratch, "%s.%s.meta" % (sc["name"], mode))
+        rc, out, err = ctx.run_cmd([exe, mode, scf, str(arg), tr, meta] + list(extra), timeout=1200)
+        exs = tracecheck.split_executions(tracecheck.read_ndjson(tr)) if os.path.exists(tr) else []
+        if rc != 0:
+            exs.append((exs.pop() if exs else []) + [{"e": "Crash", "rc": str(rc), "stderr": err[-300:]}])
+        last = {}
+        if os.path.exists(meta):
+            for l in open(meta):
+                last = json.loads(l)
+        for e in exs:
+            executions.append((sc["name"], mode, e))
+        return last
+
+    for sc in EXPLORE:
+        last = collect(sc, "explore", sc.get("limit", limit))
+        exh = bool(last.get("exhaustive"))
+        all_exh = all_exh and exh
+        ctx.extra.setdefault("scenarios", []).append({"name": sc["name"], "mode": "explore", "interleavings": last.get("explored"),
+                                                      "exhaustive": exh})
+    for sc in RANDOM:
+        collect(sc, "random", nrand, [str(ctx.seed)])
+        ctx.extra["scenarios"].append({"name": sc["name"], "mode": "random", "schedules": nrand})
+    collect(STRESS, "stress", 200 if ctx.quick else 5000, [str(ctx.seed)])
+    ctx.extra["conc_executions"] = len(executions)
+    ctx.extra["conc_all_explored_exhaustively"] = all_exh
+    distinct, mult = tracecheck.dedupe([e for _, _, e in executions])
+    ctx.extra["conc_distinct_histories"] = len(distinct)
+    distinct = [annotate(e) for e in distinct]
+    if distinct:
+        ctx.sample({"history": distinct[len(distinct) // 2]}, limit=4)
+    return executions, distinct
+
+
 def run(ctx):
     d = ctx.stage("Info")
     exe = ctx.harness("info_replay", ["harness/info/info_replay.c"])
     hs, exs = sequential(ctx, d, exe)
-    ctx.evaluations = len(hs)
     ctx.exhaustive = True
     distinct, mult = tracecheck.dedupe(exs)
     ctx.extra["seq_executions"] = len(exs)
-    fails = ctx.validate("Info", "RegTrace", "RegTrace.cfg", distinct, batch=2000, timeout=1500)
+    fails = ctx.validate("Info", "RegTrace", "RegTrace.cfg", distinct, batch=3000, timeout=1500)
     for f in fails:
         ctx.violation("real info registry diverges from Registry.tla: %s" % json.dumps(f.describe())[:1500],
                       {"kind": "seq", "events": f.execution, "detail": f.describe()})
+    cex, cdistinct = concurrent(ctx, exe)
+    ctx.evaluations = len(hs) + len(cex)
+    fails = ctx.validate("Info", "RegLinTrace", "RegLinTrace.cfg", cdistinct, batch=500, timeout=1500)
+    ctx.traces = len(exs) + len(cex)
+    for f in fails:
+        ctx.violation("history of the real info registry is not linearizable w.r.t. Registry.tla: %s" % json.dumps(f.describe())[:1500],
+                      {"kind": "conc", "events": f.execution, "detail": f.describe()})
     ctx.assume("set/get/test_and_set are only called with identifiers of currently registered infos")
     ctx.assume("an info is not unregistered while another thread uses its identifier")
 
